@@ -38,6 +38,8 @@ structure DSt where
   st : St := init               -- fw
   appPending : Bytes := []      -- app / sock: bytes received and not yet framed
   sockAcc : List Bytes := []    -- sock: frames handed to the link service so far (reported at eof)
+  allModel : List Bytes := []   -- app: every frame the model delivered in this history
+  allImpl : List String := []   -- app spec: every frame digest the implementation reported at delivery
   sendMtu : Nat := 0            -- sockS: MTU of the SENDING transport
   blkQ : List Bytes := []       -- sockS: blocks defined and not yet handed to sendFrame
   sexpect : List (Nat × String) := []  -- sockS spec: blocks the sending transport must let through
@@ -214,7 +216,9 @@ def stepC11 (d : DSt) (op : String) (got : String) : StepResult DSt :=
           let (exp, dead) : Option String × Option String := match r.2.2 with
             | .more => (some s!"k={k} f={framesText r.1}", none)
             | _ => (none, some "?")
-          { st := { dS with stream := d.stream.drop k, appPending := rest, dead := dead }, expected := exp,
+          let implNow := match field toks "f" with | some fs => parseFrames fs | none => []
+          { st := { dS with stream := d.stream.drop k, appPending := rest, dead := dead,
+                            allModel := d.allModel ++ r.1, allImpl := d.allImpl ++ implNow }, expected := exp,
             spec := crash ++ fails, cov := cov, nontrivial := nt }
         | .sockS => { st := dS, expected := some "skip", spec := crash }
         | .none => { st := dS, expected := some "skip" }
@@ -234,11 +238,23 @@ def stepC11 (d : DSt) (op : String) (got : String) : StepResult DSt :=
         if got.startsWith "hang" then [⟨"no-spin", "hang", s!"eof: the receive loop did not terminate: {got}"⟩]
         else if !(got.startsWith "nil") && !isCrash got && !(got.startsWith "dead") then
           [⟨"no-abort", "eof-error", s!"EOF on a well-formed stream reported as {got}"⟩] else []
-      (dS, f1 ++ f2 ++ f3)
+      -- application side: the packets handed to the engine must keep their bytes (the engine keeps
+      -- slices of them); the harness retained them uncopied and digests all of them again at eof
+      let f4 : List SpecFail :=
+        match field toks "h" with
+        | some hs =>
+          let now := parseFrames hs
+          if now = d.allImpl then [] else
+            let bad := (List.range d.allImpl.length).filter fun k => now[k]? ≠ d.allImpl[k]?
+            [⟨"delivered-bytes-stable", "changed-after-delivery",
+              s!"{bad.length} of the {d.allImpl.length} packets handed to the engine (delivery no. {(bad.take 8).map (· + 1)}) no longer have the bytes they were delivered with"⟩]
+        | none => []
+      (dS, f1 ++ f2 ++ f3 ++ f4)
     match d.dead with
     | some r => { st := { dS with specDead := true }, expected := some s!"dead {r}", spec := crash ++ fails }
     | none =>
-      let exp := if d.kind == .sock || d.kind == .sockS then s!"nil f={framesText d.sockAcc}" else "nil"
+      let exp := if d.kind == .sock || d.kind == .sockS then s!"nil f={framesText d.sockAcc}"
+                 else if d.kind == .app then s!"nil h={framesText d.allModel}" else "nil"
       { st := { dS with dead := some "nil", specDead := true }, expected := some exp, spec := crash ++ fails, cov := ["eof"] }
   | _ => { st := d, expected := some "bad-op" }
 
